@@ -38,6 +38,13 @@ Definition fa_set_slice (l : list B) (a b : nat) (data : list B) : option (list 
   else if (b <? a) || negb (length data =? b - a) then None
   else Some (firstn a (zext l a) ++ data ++ skipn b l).
 
+(* slice assignment a[start:stop] = data with optional bounds: an omitted start is 0, an
+   omitted stop is the current length *)
+Definition bound (x : option nat) (d : nat) : nat := match x with Some n => n | None => d end.
+
+Definition fa_setitem (l : list B) (start stop : option nat) (data : list B) : option (list B) :=
+  fa_set_slice l (bound start 0) (bound stop (length l)) data.
+
 (* ---- operation sequences on the flat array ---- *)
 
 Inductive fop : Type :=
